@@ -50,7 +50,9 @@ C13)
     ;;
 C16)
     if [ "$TIER" = thorough ]; then
-        miri_leg miri 1800 "$MIRI_BASE -Zmiri-num-cpus=2" C16 --tier quick --seed "$SEED"
+        # Tree Borrows: crossbeam-epoch 0.9.18 (inside rayon) violates the experimental Stacked Borrows rules
+        # in its own list code (container_of pattern), which would stop the interpreter before the search is exercised
+        miri_leg miri 1800 "$MIRI_BASE -Zmiri-tree-borrows -Zmiri-num-cpus=2" C16 --tier quick --seed "$SEED"
         tsan_leg tsan 1800 C16 --tier quick --seed "$SEED"
     fi
     ;;
